@@ -226,38 +226,8 @@ func genConstants() {
 		c.nat("resultChanCap", v, "capacity passed to `scan.NewResultChan` by every command")
 	}
 
-	// ---- spoofed field ranges in the fillers: rand.Intn arguments ----
-	for _, ff := range []struct{ file, pkg string }{{"pkg/scan/tcp/tcp.go", "tcp"}, {"pkg/scan/udp/udp.go", "udp"}, {"pkg/scan/icmp/icmp.go", "icmp"}} {
-		f := parseFile(ff.file)
-		fd := findFunc(f, "PacketFiller", "Fill")
-		if fd == nil {
-			problem("%s: Fill not found", ff.file)
-			continue
-		}
-		ast.Inspect(fd.Body, func(n ast.Node) bool {
-			kv, ok := n.(*ast.KeyValueExpr)
-			if !ok {
-				return true
-			}
-			key := src(kv.Key)
-			val := src(kv.Value)
-			switch key {
-			case "Id":
-				// uint16(1 + rand.Intn(65535))
-				want := "uint16(1 + rand.Intn(65535))"
-				if val != want {
-					problem("%s: Id is %q", ff.file, val)
-				}
-			case "SrcPort":
-				want1 := "layers.TCPPort(32768 + rand.Intn(61000-32768))"
-				want2 := "layers.UDPPort(32768 + rand.Intn(61000-32768))"
-				if val != want1 && val != want2 {
-					problem("%s: SrcPort is %q", ff.file, val)
-				}
-			}
-			return true
-		})
-	}
+	// spoofed field ranges of the fillers (rand.Intn arguments): see fill.go (genFillDraws), which evaluates the
+	// constant expressions instead of comparing source text
 	_ = token.ADD
 
 	c.sb.WriteString("end SxVerif.Generated\n")
